@@ -375,6 +375,11 @@ def execute(scn: dict, decisions: list | None = None, verbose: bool = False,
         sim.spawn(sim.node(f'c{ci}', 'client'), _client_main,
                   (sim, rr, ci, cspec, shared), name=f'c{ci}/main')
 
+    def arm_timers(ev) -> None:
+        if ev[1] == 'CLIENT-OP':
+            sim.timers_armed = True
+    sim.event_watchers.append(arm_timers)
+
     # fault plan
     from dst import faults
     faults.install(sim, rr, scn.get('faults') or [])
